@@ -10,3 +10,6 @@ import SonicSpec.Model.NumFmt
 import SonicSpec.Model.NumSpec
 import SonicSpec.Props.C19
 import SonicSpec.Props.C10
+import SonicSpec.Model.StrUtf8
+import SonicSpec.Model.StrHtml
+import SonicSpec.Model.StrSpec
